@@ -74,6 +74,15 @@ def regenerate(log):
     if p.returncode != 0:
         return "spec generator failed: " + p.stderr[-300:]
     _replace_if_changed(spec + ".tmp", spec)
+    # cast / range-check kernel: maps.py + validator.py -> Lang/CastGen.v.  A source the translator does not
+    # accept leaves a CastGen.v that does not compile: the theorems that depend on it stop checking, the
+    # rest of the development (and the correspondence) still builds.
+    cg = os.path.join(COQ, "Lang", "CastGen.v")
+    p = subprocess.run([PY, os.path.join(ROOT, "translator", "cast2coq.py"), os.path.join(REPO, "src", "pyqasm", "maps.py"),
+                        os.path.join(REPO, "src", "pyqasm", "validator.py"), cg + ".tmp"], capture_output=True, text=True)
+    log.append(p.stdout + p.stderr)
+    if os.path.exists(cg + ".tmp"):
+        _replace_if_changed(cg + ".tmp", cg)
     return None
 
 
@@ -106,15 +115,16 @@ def build(targets, fresh=(), timeout=1500):
                            capture_output=True, text=True)
         for t in fresh:
             for ext in (".vo", ".vok", ".vos", ".glob"):
-                f = os.path.join(COQ, t[:-3] + ext)
+                f = os.path.join(COQ, os.path.splitext(t)[0] + ext)
                 if os.path.exists(f):
                     os.remove(f)
-        cmd = ["timeout", str(timeout), "make", "-j%d" % NPROC] + list(targets)
+        cmd = ["timeout", str(timeout), "make", "-k", "-j%d" % NPROC] + list(targets)
         p = subprocess.run(cmd, cwd=COQ, capture_output=True, text=True)
         res.log = "\n".join(log) + p.stdout + p.stderr
         if p.returncode != 0:
             res.ok = False
-            m = re.search(r'File "\./([^"]+)", line (\d+)', res.log)
+            m = re.search(r'File "\./([^"]+)", line (\d+), characters [^\n]*\nError', res.log) or \
+                re.search(r'File "\./([^"]+)", line (\d+)', res.log)
             res.failed_target = "%s:%s" % (m.group(1), m.group(2)) if m else "make exit %d" % p.returncode
         return res
     finally:
@@ -139,13 +149,24 @@ def parse_assumptions(log):
                 axioms.add(m.group(1))
             else:
                 in_block = False
+    LAST_ASSUMPTIONS.update(closed_theorems=closed, listed=sorted(axioms))
     return closed, axioms
+
+
+LAST_ASSUMPTIONS = {}
+
+
+# Print Assumptions prints the shortest unambiguous name: inside a file that imports PrimFloat the float
+# primitives appear unqualified.  (No file of the development may declare an axiom of its own -- hygiene() --
+# so a listed name can only come from a library.)
+PRIMFLOAT_SHORT = {"float", "eqb", "ltb", "leb", "add", "sub", "mul", "div", "opp", "abs", "sqrt", "of_uint63",
+                   "normfr_mantissa", "frshiftexp", "ldshiftexp", "classify", "compare", "next_up", "next_down"}
 
 
 def axioms_ok(axioms):
     bad = []
     for a in axioms:
-        if a in ALLOWED_AXIOMS or a.startswith(ALLOWED_PRIMITIVE_PREFIXES):
+        if a in ALLOWED_AXIOMS or a.startswith(ALLOWED_PRIMITIVE_PREFIXES) or a in PRIMFLOAT_SHORT:
             continue
         bad.append(a)
     return bad
@@ -259,6 +280,9 @@ class Check:
     def finish(self, level="proof"):
         for w in dict.fromkeys(self.known_lines):
             print("KNOWN-FINDING: property=%s %s" % (self.prop, w))
+        if LAST_ASSUMPTIONS and isinstance(self.coverage, dict):
+            # what `Print Assumptions` reported under the property's theorems in this run's build
+            self.coverage.setdefault("print_assumptions", dict(LAST_ASSUMPTIONS))
         ev = {
             "property_id": self.prop,
             "tier": self.tier,
